@@ -96,6 +96,31 @@ theorem C09_shouldReply_iff (x : Nat) (t : List Nat) (ntsOk : Bool) (hx : x < 25
           · exact absurd ⟨hgt, rfl⟩ h3
           · rfl
 
+/-- **History independence.** Whatever datagrams a listener socket has seen before (rejected
+    short ones, truncated ones, served ones) and whatever length they left the receive buffer
+    with, each datagram is decided as if it were the first: the loop's decisions on a sequence
+    are the per-datagram decisions.  (This is what "for *each* payload that is a well-formed
+    client request" needs beyond the per-datagram characterisation.) -/
+theorem C09_history_independent (bl : Nat) (ds : List (List Nat × Bool)) :
+    runLoop true bl ds = ds.map (fun d => serve d.1 d.2) := by
+  induction ds generalizing bl with
+  | nil => rfl
+  | cons d ds ih =>
+    simp only [runLoop, List.map_cons, ih]
+    congr 1
+
+/-- The restore at the top of the loop is what this rests on: a loop that restores the buffer
+    only after a served request drops a valid request that follows a rejected 1-byte datagram
+    (the buffer is still 1 byte long, the request arrives truncated). -/
+example : runLoop false 2048 [([0], false), (0x23 :: List.replicate 47 0, false)] =
+    [.dropDecode, .dropTruncated] := by decide
+example : runLoop true 2048 [([0], false), (0x23 :: List.replicate 47 0, false)] =
+    [.dropDecode, .reply] := by decide
+
+/-- The structural fact the model relies on, re-read from /repo on every run: the first
+    statements of `runIPServer`'s loop body restore `buf` and `oob` to full capacity. -/
+theorem C09_pin_restoreAtLoopTop : Gen.Server.ipServerRestoresBufAtLoopTop = true := by decide
+
 /-- Nothing shorter than 48 bytes (in particular the empty datagram) is answered. -/
 theorem C09_short_never_answered (b : List Nat) (ntsOk : Bool) (h : b.length < 48) :
     shouldReply b ntsOk = false := by
